@@ -10,7 +10,7 @@ TECHNIQUE = "static analysis over type-checked MIR: provenance of every opened/s
 LEVEL_TEXT = """Static decision of the call-site and guard clauses (the scanner's byte-for-byte string algorithm is NOT claimed): (N1) the path opened by FileAppenderBuilder::build, the path stored by RollingFileAppenderBuilder::build and every pattern-derived path in the fixed-window roller derive from an expand_env_vars result (floor: 6 call sites); (N2) the literal searched for is "$ENV{", the offset added to a match equals its length, the terminator compared is '}' and the amount added for it equals its UTF-8 length; (N3) the only rewrite of the output path is one str::replace call that is control-dependent on the name having been terminated by the suffix and on env::var(name) being Ok, and replaces exactly the matched slice with the variable's value; (N4) first-character predicate = is_alphanumeric OR '_', inner predicate = is_alphanumeric OR '_' OR '.'; (N6) no definite character count is used as a byte offset (and no byte count steps a character iterator) in the scanner; (N5) no un-discharged panic site in the scanner (slices/split_at offsets come from match_indices/len of the same string)."""
 LEVEL_NOTE = "Trusted: rustc MIR/callee resolution; str::match_indices/replace/split_at, char::is_alphanumeric, std::env::var. Output for every path string (adjacent/repeated references, values combining with neighbours) is not decided."
 EXPLANATION = """Decided: N1 all six locations expanded, N2 constants agree, N3 replacement guard, N4 predicates, N5 no panic, N6 byte/char unit discipline. Undecided: byte-for-byte output of the scanner for every path string."""
-DECIDED = ["N1", "N2", "N3", "N4", "N5", "N6"]
+DECIDED = ["N1", "N2", "N3", "N4", "N5", "N6", "N7 a terminated reference is always looked up, a set variable always replaced"]
 UNDECIDED = ["scanner output for all strings (adjacent/repeated references, interacting values)"]
 TRUSTED = ["rustc nightly MIR + Instance::try_resolve", "std str/char/env APIs", "external may-panic contract table"]
 
@@ -229,6 +229,62 @@ def run_cfg(ctx, p, cfg):
         r.require(okr, "output-untouched-otherwise", fn=f, detail="returned value is the input or the result of that replace: %s" % show(ret, 4))
         # name looked up is the scanned name
         r.require(any(x[0] == "call" and x[1] == "alloc::string::String::new" for x in walk(ev[0].arg(0))) if ev else False, "looks-up-the-scanned-name", fn=f, detail="env::var(&env_name)")
+
+    with ctx.rule("N7", "every terminated reference is looked up", cfg) as r:
+        # N3 is the 'only if' direction.  The 'if' direction: once the name scan has ended on the terminator, every path to the next
+        # match (or to the return) asks the environment for that name, and an Ok answer always reaches the replace.  A path that
+        # skips the lookup is accepted only behind a `contains` on a collection that is filled under the lookup's Ok edge only
+        # (a reference already replaced everywhere needs no second lookup).
+        f = p.fn(EXPAND)
+        ev = f.calls("std::env::var")
+        rp = f.call1(REPLACE)
+        mi = f.call1("core::str::<impl str>::match_indices")
+        outer = [c.block for c in f.calls(NEXT) if any(x[0] == "call" and x[1] == "core::str::<impl str>::match_indices" for x in walk(c.arg(0)))]
+        stops = set(outer) | set(f.return_blocks())
+        starts, cuts = [], set()
+        for blk in f.blocks:
+            if blk["id"] not in f.reachable_blocks() or blk["term"]["k"] != "switch":
+                continue
+            si = SwitchInfo(f, blk["id"])
+            if si.t.get("discr_ty") == "char" and [a_["value"] for a_ in si.t["arms"]] == [125]:
+                starts.append(si.t["arms"][0]["target"])
+            else:
+                nf = cmp_nf(si.discr, True)
+                if nf and nf[0] == "Eq" and any(deep_strip(x) == ("const", "char", "}") for x in nf[1:]):
+                    starts.append(si.target_of(True))
+        if not r.require(bool(starts) and len(ev) == 1 and bool(outer), "anchors", fn=f, detail="terminator edge(s) %s, env::var sites %d, match loop steps %s" % (starts, len(ev), outer)):
+            return
+        # memo exception
+        for blk in f.blocks:
+            if blk["id"] not in f.reachable_blocks() or blk["term"]["k"] != "switch":
+                continue
+            si = SwitchInfo(f, blk["id"])
+            d = strip(si.discr)
+            if d[0] == "call" and d[1].rsplit("::", 1)[-1] == "contains" and si.is_bool:
+                coll = deep_strip(d[2][0])
+                fills = [c for c in f.calls() if (c.callee or "").rsplit("::", 1)[-1] in ("push", "insert") and show(deep_strip(c.arg(0)), 8) == show(coll, 8)]
+                def under_ok(c):
+                    for sb, s2, al in f.conditions(c.block):
+                        d2 = strip(s2.discr)
+                        if d2[0] == "discr" and strip(d2[1])[0] == "call" and strip(d2[1])[1] == "std::env::var" and {s2.label(v) for v, _ in al} == {"Ok"}:
+                            return True
+                    return False
+                if fills and all(under_ok(c) for c in fills):
+                    cuts.add((blk["id"], si.target_of(True)))
+        for st in sorted(set(starts)):
+            hit = q.const_skipping_paths(f, st, [ev[0].block], stops, cut_edges=cuts)
+            r.require(not hit, "lookup-follows-the-terminator", fn=f, detail="from the terminator edge (bb%d) every path to the next match or the return passes env::var(name)" % st,
+                      fail_detail="a terminated reference can go unexpanded: bb%s reachable from the terminator edge bb%d without env::var (e.g. a `continue` on a list of names already seen, filled before the name is known to be valid)" % (sorted(hit), st))
+        for sb in f.blocks:
+            if sb["id"] in f.reachable_blocks() and sb["term"]["k"] == "switch":
+                si = SwitchInfo(f, sb["id"])
+                d = strip(si.discr)
+                if d[0] == "discr" and strip(d[1])[0] == "call" and strip(d[1])[1] == "std::env::var":
+                    okt = si.target_of("Ok")
+                    if not f.dominates(sb["id"], rp.block):
+                        continue        # the drop of the Result after the `if let` switches on it again
+                    hit = q.const_skipping_paths(f, okt, [rp.block], stops)
+                    r.require(not hit, "set-variable-always-replaced", fn=f, detail="from env::var == Ok every path to the next match or the return passes the replace")
 
     with ctx.rule("N4", "predicates", cfg) as r:
         f = p.fn(EXPAND)
